@@ -286,7 +286,7 @@ func (cc c05Chain) build() *rux.Router {
 }
 
 func runC05(e *Env) {
-	e.Rule = "chains global+group+route middleware+main built through Use (one or several calls), Group middleware, variadic route middleware and Route.Use; exhaustive: every chain length 1..L (L=7 quick, 9 thorough) x every position of the aborting handler x {Abort, AbortThen, AbortWithStatus(code), AbortWithStatus(code,msg), code incl. 200, optionally after the first handler recorded another status without committing} x abort before/after/without its own Next() x extra Next() after the abort x every subset of the other handlers calling/not calling Next() x body byte written before the abort or not; sampled: long chains with totals around 31..33, 61..66 and 126..140 (beyond 63 through global middleware) and random behaviours (incl. double Next); after every aborted request a second request on the same router in which nobody aborts. Observed: enter/leave/abort events and IsAborted() sampled at entry, before/after the abort call and at leave of every handler, status/body at the recording writer. Oracle: specification-level interpreter of Next/Abort. Non-trivial: every case (each has an abort); distinct by chain description. Sampled chains may run behind an uninstrumented recover middleware and/or a buffering middleware that replaced c.Resp, or on a writer whose first body write fails."
+	e.Rule = "chains global+group+route middleware+main built through Use (one or several calls), Group middleware, variadic route middleware and Route.Use; exhaustive: every chain length 1..L (L=7 quick, 9 thorough) x every position of the aborting handler x {Abort, AbortThen, AbortWithStatus(code), AbortWithStatus(code,msg), code incl. 200, optionally after the first handler recorded another status without committing} x abort before/after/without its own Next() x extra Next() after the abort x every subset of the other handlers calling/not calling Next() x body byte written before the abort or not; sampled: long chains with totals around 31..33, 61..66 and 126..140 (beyond 63 through global middleware) and random behaviours (incl. double Next); after every aborted request a second request on the same router in which nobody aborts. Observed: enter/leave/abort events and IsAborted() sampled at entry, before/after the abort call and at leave of every handler, status/body at the recording writer. Oracle: specification-level interpreter of Next/Abort. Non-trivial: every case (each has an abort); distinct by chain description. Sampled chains may run behind an uninstrumented recover middleware and/or a buffering middleware that replaced c.Resp, or on a writer whose first body write fails. Re-dispatch part: a handler hands the context to the router again (HandleContext) and a handler of that inner chain aborts; then, on the same router, a request aborts in a middleware and the router serves another request inside that middleware before the first goes on (its abort must stand, it must keep its own context)."
 	e.Assumptions = []string{
 		"a route's own chain (group + route middleware + main handler) stays within the registration limit of 63; global middleware, which that limit does not count, makes executed chains of up to 140 entries",
 	}
@@ -730,5 +730,68 @@ func c05Redispatch(t *T) {
 	}
 	if kind == "AbortWithStatus" && (rec.Status() != code || rec.NumWH() != 1) {
 		t.Fail("redispatch-abort-status", "AbortWithStatus(%d) inside the re-dispatched chain: the writer saw %s", code, rec.CallLog())
+		return
+	}
+
+	// afterwards, on the same router: a request aborts in its middleware and, still inside that
+	// middleware, the router serves another request (a sub-request / an overlapping client); the
+	// abort of the first request stands when it goes on
+	nGate := 2 + r.IntN(3)
+	ga := r.IntN(nGate - 1) // the aborting middleware (never the main handler: something later exists)
+	mkGate := func(i int) rux.HandlerFunc {
+		return func(c *rux.Context) {
+			rec := recOf(c)
+			rec.Ev("enter(a%d)", i)
+			if i == ga {
+				switch kind {
+				case "Abort":
+					c.Abort()
+				case "AbortThen":
+					c.AbortThen()
+				default:
+					c.AbortWithStatus(code)
+				}
+				rec.Ev("abort(a%d) aborted=%v", i, c.IsAborted())
+				nrec, _, npan := Serve(c.Router(), NewReq("GET", "/plain"))
+				rec.Ev("other-request-served(status %d, panicked %v, same-context %v) aborted=%v", nrec.Status(), npan, nrec.CtxPtr != nil && nrec.CtxPtr == c, c.IsAborted())
+				if extraNext {
+					c.Next()
+				}
+			} else {
+				c.Next()
+			}
+			rec.Ev("leave(a%d) aborted=%v", i, c.IsAborted())
+		}
+	}
+	var gate []rux.HandlerFunc
+	for i := 0; i < nGate; i++ {
+		gate = append(gate, mkGate(i))
+	}
+	router.GET("/gate", gate[nGate-1], gate[:nGate-1]...)
+	router.GET("/plain", func(c *rux.Context) {
+		recOf(c).CtxPtr = c
+		c.WriteString("plain")
+	})
+	grec, gpv, gpan := Serve(router, NewReq("GET", "/gate"))
+	if gpan {
+		t.Fail("servehttp-panic", "a request that aborts and then lets the router serve another request panicked: %v", gpv)
+		return
+	}
+	var gwant []string
+	for i := 0; i <= ga; i++ {
+		gwant = append(gwant, fmt.Sprintf("enter(a%d)", i))
+	}
+	gwant = append(gwant, fmt.Sprintf("abort(a%d) aborted=true", ga), "other-request-served(status 200, panicked false, same-context false) aborted=true")
+	for i := ga; i >= 0; i-- {
+		gwant = append(gwant, fmt.Sprintf("leave(a%d) aborted=true", i))
+	}
+	t.Count("redispatch.followed_by_abort_with_overlapping_request", 1)
+	t.Tracef("gate trace: %s", strings.Join(grec.Events, " "))
+	if !eventsEqual(gwant, grec.Events) {
+		t.Fail("abort-lost-while-another-request-was-served", "after a re-dispatched request, GET /gate (%d handlers, a%d calls %s, then the router serves GET /plain inside a%d, Next() afterwards: %v):\n expected trace: %s\n observed trace: %s", nGate, ga, kind, ga, extraNext, strings.Join(gwant, " "), strings.Join(grec.Events, " "))
+		return
+	}
+	if kind == "AbortWithStatus" && (grec.Status() != code || grec.NumWH() != 1) {
+		t.Fail("abort-status-lost-while-another-request-was-served", "AbortWithStatus(%d) in a%d, then another request served inside it: the writer saw %s", code, ga, grec.CallLog())
 	}
 }
